@@ -55,6 +55,7 @@ from typing import (
 from typing_extensions import Self  # In 3.11, import this from `typing`
 
 from mpservice import multiprocessing
+from mpservice._common import StopRequested
 from mpservice._queues import SingleLane
 from mpservice.concurrent.futures import (
     ProcessPoolExecutor,
@@ -927,7 +928,7 @@ class Buffer(Iterable):
                     break
                 q.put(x)  # if `q` is full, will wait here
             q.put(FINISHED)
-        except Exception as e:
+        except (Exception, StopRequested) as e:
             q.put(STOPPED)
             q.put(e)
             # raise
@@ -1037,7 +1038,7 @@ def fifo_stream(
                 q.put((x, fut))
                 # The size of the queue `q` regulates how many
                 # concurrent calls to `func` there can be.
-        except Exception as e:
+        except (Exception, StopRequested) as e:
             q.put(e)
         else:
             q.put(None)
@@ -1057,7 +1058,7 @@ def fifo_stream(
             z = tasks.get()
             if z is None:
                 break
-            if isinstance(z, Exception):
+            if isinstance(z, (Exception, StopRequested)):
                 raise z
 
             x, fut = z
@@ -1082,7 +1083,7 @@ def fifo_stream(
             z = tasks.get()
             if z is None:
                 break
-            if isinstance(z, Exception):
+            if isinstance(z, (Exception, StopRequested)):
                 break
             _, t = z
             t.cancel()
@@ -1126,7 +1127,7 @@ async def async_fifo_stream(
                 await tasks.put((x, t))
                 # The size of the queue `tasks` regulates how many
                 # concurrent calls to `func` there can be.
-        except Exception as e:
+        except (Exception, StopRequested) as e:
             await tasks.put(e)
         else:
             await tasks.put(None)
@@ -1150,7 +1151,7 @@ async def async_fifo_stream(
             z = await tasks.get()
             if z is None:
                 break
-            if isinstance(z, Exception):
+            if isinstance(z, (Exception, StopRequested)):
                 raise z
 
             x, t = z
@@ -1174,7 +1175,7 @@ async def async_fifo_stream(
             z = await tasks.get()
             if z is None:
                 break
-            if isinstance(z, Exception):
+            if isinstance(z, (Exception, StopRequested)):
                 break
             _, t = z
             t.cancel()
